@@ -66,7 +66,7 @@ def run_digest(prop, mode, base, idx):
         # the second (conflict-directed) stage is part of what must be repeatable
         from sim.driver import directed_specs
         specs = directed_specs(res, seed)
-        h.update(repr([(sp['victim'], sp['at'], sp['drain']) for sp in specs]).encode())
+        h.update(repr([(sp['victim'], sp['at'], sp['drain'], sp.get('hold')) for sp in specs]).encode())
         if specs:
             r2 = execute_isolated(prop, plan, specs[0], timeout=120, label='digest directed run')
             h.update(repr((r2['sched']['digest'], r2['sched']['segments'], r2['sched']['directed_fired'],
